@@ -946,6 +946,43 @@ theorem lookupProof_uses_live_only (st : State) (H : SdnsVerif.Model.Nsec3.HashF
       · exact ih h (fun y hy => hsub y (List.mem_cons_of_mem _ hy))
     · exact ih h (fun y hy => hsub y (List.mem_cons_of_mem _ hy))
 
+/-- **Re-admission replaces, it never extends.**  Whatever the order of
+admissions, after a bundle is recorded every subtree cut for its denied name
+carries exactly the deadline computed from THIS bundle's own records (ceiling,
+cut deadline, every TTL, every RRSIG) — an entry admitted earlier for the same
+name neither survives nor lends or borrows a deadline; and if the bundle earns
+no cut (not NXDOMAIN, Opt-Out, nothing left) the cut index is unchanged. -/
+theorem admitCut_replaces (st : State) (b : Bundle) :
+    (admitCut st b).cuts = st.cuts ∨
+    ∃ e, proofExpiry st.now st.cutMax b.cut ([b.soaTtl] ++ b.sets.map (·.ttl) ++ b.sets3.map (·.ttl)) (some b.soaMin)
+          (b.soaSigs ++ b.sets.flatMap (·.sigs) ++ b.sets3.flatMap (·.sigs)) = some e ∧
+      (∀ c ∈ (admitCut st b).cuts, c.denied = b.subject → c.expires = e) ∧
+      (∀ c ∈ (admitCut st b).cuts, c.denied ≠ b.subject → c ∈ st.cuts) := by
+  unfold admitCut
+  split
+  · exact Or.inl rfl
+  · split
+    · exact Or.inl rfl
+    · split
+      · rename_i e he
+        right
+        refine ⟨e, he, ?_, ?_⟩
+        · intro c hc hd
+          simp only [List.mem_append, List.mem_filter, bne_iff_ne, ne_eq, List.mem_singleton] at hc
+          rcases hc with ⟨_, hne⟩ | rfl
+          · exact absurd hd hne
+          · rfl
+        · intro c hc hd
+          simp only [List.mem_append, List.mem_filter, bne_iff_ne, ne_eq, List.mem_singleton] at hc
+          rcases hc with ⟨hm, _⟩ | rfl
+          · exact hm
+          · exact absurd rfl hd
+      · exact Or.inl rfl
+
+example : (admitCut { now := 0, cutMax := 600, cuts := [{ denied := [[122], [98]], expires := 500 }] }
+    { zone := [[122]], nx := true, subject := [[122], [98]], soaTtl := 300, soaMin := 300, soaSigs := [⟨300, 300, 20⟩],
+      cut := none, sets := [] }).cuts.map (·.expires) = [20] := by decide
+
 theorem cutWalk_spec (st : State) (q : Name) : ∀ (k : Nat) (c : CutEntry), cutWalk st q k = some c →
     c ∈ st.cuts ∧ st.now < c.expires ∧ ∃ j, 1 ≤ j ∧ j ≤ k ∧ c.denied = q.take j := by
   intro k
